@@ -131,7 +131,8 @@ func (s *compositeSchedule) Left() int {
 		verifYield("left:retry")
 		return s.Left()
 	}
-	if left < 0 {
+	if left < 0 || leftAfter < 0 {
+		// Something after current schedule is unknown, so total is unknown too.
 		return -1
 	}
 	return left + leftAfter
